@@ -4,7 +4,7 @@ from .. import core
 
 def jobs(ctx):
     q = ctx.tier == "quick"
-    js = [("boxcar_sched", ["loc"])]
+    js = [("boxcar_sched", ["loc"]), ("boxcar_sched", ["cap"])]
     for k in range(core.NCPU):
         js.append(("boxcar_sched", ["rand", 150 if q else 7000, k]))
     return js
@@ -26,7 +26,8 @@ def run(ctx):
              "items) / get / count / snapshot on one vector (capacity 0/1/33/1024, 1-3 columns) under a seeded scheduler that serialises the threads at the "
              "cfg-gated yield points in front of every atomic operation (uniform choices with occasional long runs of one thread); the executed (thread, site) "
              "sequence is replayed on the model, which must predict every site and every result; plus Location::of on 3000 small indices and the power-of-two "
-             "neighbourhoods up to the capacity limit; distinct non-trivial = distinct (capacity, programs, schedule)",
+             "neighbourhoods up to the capacity limit; nine single-thread scenarios at the capacity limit (a batch whose iterator claims almost 2^32 items is "
+             "rejected after reserving its indices, then rejected pushes, the count after every step: never decreasing, never below the completed pushes); distinct non-trivial = distinct (capacity, programs, schedule)",
         nontrivial=nontrivial, correspondence="Model/Boxcar.lean (stepPC/effOf/nextOf, per-site) ~ src/boxcar.rs",
         assumptions=["the yield points make the schedule sequentially consistent at atomic-operation granularity; weaker memory-order effects are C09's subject",
                      "allocation and deallocation of buckets (the loser of a CAS frees its allocation) are not observable in this model"],
